@@ -372,6 +372,14 @@ def install(eng):
         return hash(o)
 
     def py_round(v, n=None):
+        if isinstance(v, SymReal) and isinstance(n, int) and 0 <= n <= 15:
+            # uninterpreted rounding: only |round(v, n) - v| <= 10^-n / 2 is known
+            import z3 as _z3
+            rf = _z3.Function(f"py_round_{n}", _z3.RealSort(), _z3.RealSort())
+            r = rf(v.term)
+            half = _z3.Q(1, 2 * 10 ** n)
+            eng.assume(_z3.And(r - v.term <= half, v.term - r <= half), why="round(x, n) is within half a unit of the n-th decimal of x")
+            return SymReal(r)
         if isinstance(v, Sym):
             raise Unsupported("round of symbolic")
         return round(v, n) if n is not None else round(v)
